@@ -575,7 +575,7 @@ func (ctx drawContext) drawBorder(box_ Box) {
 	// Draw column borders.
 	drawColumnBorder := func() {
 		columns := bo.BlockContainerT.IsInstance(box_) && (box.Style.GetColumnWidth().S != "auto" || box.Style.GetColumnCount().String != "auto")
-		if crw := box.Style.GetColumnRuleWidth(); columns && !crw.IsNone() {
+		if crw := box.Style.GetColumnRuleWidth(); columns && !crw.IsNone() && crw.Value != 0 {
 			borderWidths := pr.Rectangle{0, 0, 0, crw.Value}
 
 			// columns that have a rule drawn on the left.
